@@ -138,7 +138,8 @@ fn run_trace(line: &str, dir: &str) -> String {
                         drop(s);
                         let _ = tx.send(());
                     });
-                    let returned = rx.recv_timeout(std::time::Duration::from_millis(150)).is_ok();
+                    let wait_ms: u64 = t.get(1).map(|s| pu(s)).unwrap_or(150);
+                    let returned = rx.recv_timeout(std::time::Duration::from_millis(wait_ms)).is_ok();
                     shim::logline(format!("c dropheld {}", if returned { "returned" } else { "blocked" }));
                     if returned {
                         let _ = h.join();
@@ -349,6 +350,7 @@ fn lock_contend(dir: &str, logfile: &str, threads: usize, rounds: usize, seed: u
                             Ok(d) => {
                                 shim::lock_log("h got dump");
                                 std::thread::sleep(std::time::Duration::from_micros(rnd() % 800));
+                                shim::lock_log("h dropping");
                                 drop(d);
                                 shim::lock_log("h dropped");
                             }
@@ -377,6 +379,7 @@ fn lock_contend(dir: &str, logfile: &str, threads: usize, rounds: usize, seed: u
                                     shim::lock_log(&format!("h flush {}", res));
                                 }
                                 std::thread::sleep(std::time::Duration::from_micros(rnd() % 800));
+                                shim::lock_log("h dropping");
                                 drop(s);
                                 shim::lock_log("h dropped");
                             }
